@@ -24,12 +24,16 @@ def main(argv):
     # one spec that trips over an engine limitation must not take the other specs of the check with it
     def guard(fn):
         def wrapped(*a, **kw):
+            t1 = time.time()
             try:
                 return fn(*a, **kw)
             except Exception as e:  # engine bug / unsupported shape: never an alarm, but said out loud
                 traceback.print_exc()
                 ck.add('engine-error/' + fn.__name__, 'inconclusive', '%s: %s' % (type(e).__name__, e))
                 return None
+            finally:
+                if os.environ.get('VERIF_TIMING'):
+                    print('TIMING %s %.1fs' % (fn.__name__, time.time() - t1), flush=True)
         wrapped.__name__ = fn.__name__
         wrapped._guarded = True
         return wrapped
